@@ -125,6 +125,11 @@ type Fam struct {
 	jailedAt      map[string]int64
 	gen           genState
 	extra         map[string]int
+	// C01: the second instance and the consensus-relevant text of the last response of each
+	rep      *replica
+	lastResp string
+	repResp  string
+	blockRaw [][]byte // raw transactions seen in this block (material for the replica's own CheckTx traffic)
 }
 
 func New(profile string) *Fam {
@@ -208,6 +213,12 @@ func (f *Fam) doInit(w []string) string {
 	}
 	f.blockTxs = nil
 	f.app = NewApp(f.db, rpc, sdk.PruningOptions{})
+	f.rep = nil
+	if f.replicaOn() {
+		pr := replicaPrunings[opRand(strings.Join(w, " "), 0).Intn(len(replicaPrunings))]
+		rdb := dbm.NewMemDB()
+		f.rep = &replica{app: NewApp(rdb, rpc, pr), db: rdb, rpc: rpc, pruning: pr}
+	}
 	f.dead, f.height, f.inBlock = false, 0, false
 	f.minChanged, f.windowChanged = false, false
 	f.tm, f.tmHist, f.pending = map[string]int64{}, nil, nil
@@ -228,9 +239,22 @@ func (f *Fam) doInit(w []string) string {
 	}
 	var accs authTypes.Accounts
 	var vals posTypes.Validators
+	signing := map[string]posTypes.ValidatorSigningInfo{}
+	missedBlocks := map[string][]posTypes.MissedBlock{}
 	supply := sdk.ZeroInt()
 	for i := 0; i < len(w); i++ {
 		switch w[i] {
+		case "si": // si <addr> <start> <offset> <missed> <jailedUntil ns | -1> <tombstoned>: exported signing info
+			ju := time.Unix(0, atoi(w[i+5])).UTC()
+			if w[i+5] == "-1" {
+				ju = posTypes.DoubleSignJailEndTime
+			}
+			signing[w[i+1]] = posTypes.ValidatorSigningInfo{Address: unhex(w[i+1]), StartHeight: atoi(w[i+2]), IndexOffset: atoi(w[i+3]),
+				MissedBlocksCounter: atoi(w[i+4]), JailedUntil: ju, Tombstoned: w[i+6] == "1"}
+			i += 6
+		case "mb": // mb <addr> <index> <0|1>: exported missed-block entry
+			missedBlocks[w[i+1]] = append(missedBlocks[w[i+1]], posTypes.MissedBlock{Index: atoi(w[i+2]), Missed: w[i+3] == "1"})
+			i += 3
 		case "acc":
 			addr := unhex(w[i+1])
 			bal := mustInt(w[i+2])
@@ -268,6 +292,7 @@ func (f *Fam) doInit(w []string) string {
 		Supply: sdk.NewCoins(sdk.NewCoin(Denom, supply))}
 	posGen := posTypes.DefaultGenesisState()
 	posGen.Validators = vals
+	posGen.SigningInfos, posGen.MissedBlocks = signing, missedBlocks
 	govGen := govTypes.GenesisState{Params: govTypes.Params{ACL: acl, DAOOwner: unhex(m["daoo"]), Upgrade: govTypes.NewUpgrade(0, "")},
 		DAOTokens: mustInt(m["daot"])}
 	f.app.Genesis = map[string]json.RawMessage{
@@ -276,14 +301,22 @@ func (f *Fam) doInit(w []string) string {
 		govTypes.ModuleName:  govTypes.ModuleCdc.MustMarshalJSON(govGen),
 	}
 	var ups []abci.ValidatorUpdate
-	r := f.guard(func() string {
-		res := f.app.InitChain(abci.RequestInitChain{ChainId: ChainID, Time: time.Unix(0, 0).UTC(),
+	initChain := func(a *App) string {
+		res := a.InitChain(abci.RequestInitChain{ChainId: ChainID, Time: time.Unix(0, 0).UTC(),
 			ConsensusParams: &abci.ConsensusParams{Validator: &abci.ValidatorParams{PubKeyTypes: []string{tmtypes.ABCIPubKeyTypeEd25519}}}})
-		f.app.Pos.SetParams(f.app.Ctx(), params)
-		ups = res.Validators
-		return "ok"
-	})
+		a.Pos.SetParams(a.Ctx(), params)
+		if a == f.app {
+			ups = res.Validators
+		}
+		return "ok ups=" + upsStr(res.Validators)
+	}
+	r := f.guard(func() string { f.lastResp = initChain(f.app); return "ok" })
+	if f.rep != nil {
+		f.rep.app.Genesis = f.app.Genesis
+		f.repResp = f.rep.run(initChain)
+	}
 	if f.dead {
+		f.lastResp = "halt"
 		return r
 	}
 	f.applyUpdates(ups)
@@ -367,18 +400,31 @@ func (f *Fam) doBegin(w []string) string {
 				Validator: abci.Validator{Address: unhex(x[0]), Power: atoi(x[3])}, Height: atoi(x[1]), Time: time.Unix(0, atoi(x[2])).UTC()})
 		}
 	}
-	r := f.guard(func() string { f.app.BeginBlock(req); return "ok" })
+	f.blockRaw = nil
+	begin := func(a *App) string { return "ok " + eventsStr(a.BeginBlock(req).Events) }
+	r := f.guard(func() string { f.lastResp = begin(f.app); return "ok" })
+	if f.rep != nil {
+		f.rep.traffic(opRand(strings.Join(w, " "), 1), nil)
+		f.repResp = f.rep.run(begin)
+	}
 	f.inBlock = !f.dead
 	return r + " | " + f.state()
 }
 
 func (f *Fam) doEnd() string {
 	var ups []abci.ValidatorUpdate
-	r := f.guard(func() string {
-		res := f.app.EndBlock(abci.RequestEndBlock{Height: f.height})
-		ups = res.ValidatorUpdates
-		return "ok"
-	})
+	end := func(a *App) string {
+		res := a.EndBlock(abci.RequestEndBlock{Height: f.height})
+		if a == f.app {
+			ups = res.ValidatorUpdates
+		}
+		return "ok ups=" + upsStr(res.ValidatorUpdates) + " " + eventsStr(res.Events)
+	}
+	r := f.guard(func() string { f.lastResp = end(f.app); return "ok" })
+	if f.rep != nil {
+		f.rep.traffic(opRand(fmt.Sprintf("end %d", f.height), 2), f.blockRaw)
+		f.repResp = f.rep.run(end)
+	}
 	if f.dead {
 		return r + " | dead"
 	}
@@ -386,7 +432,13 @@ func (f *Fam) doEnd() string {
 }
 
 func (f *Fam) doCommit() string {
-	r := f.guard(func() string { f.app.Commit(); return "ok" })
+	commit := func(a *App) string { return fmt.Sprintf("ok hash=%x", a.Commit().Data) }
+	r := f.guard(func() string { f.lastResp = commit(f.app); return "ok" })
+	if f.rep != nil {
+		f.repResp = f.rep.run(commit)
+		// the instance is stopped after some commits and reopened from its database (after the comparison)
+		f.rep.wantRestart = !f.rep.dead && !f.dead && opRand(fmt.Sprintf("commit %d %s", f.height, f.lastResp), 3).Intn(4) == 0
+	}
 	if f.index != nil { // Tendermint indexes every transaction of the committed block
 		for _, h := range f.blockTxs {
 			f.index.Add(h)
@@ -523,6 +575,7 @@ func (f *Fam) doTx(w []string) (string, []byte, sdk.Msg, txSpec) {
 			f.blockTxs = append(f.blockTxs, fmt.Sprintf("%x", tmtypes.Tx(bz).Hash()))
 			r := f.app.DeliverTx(abci.RequestDeliverTx{Tx: bz})
 			code, log = r.Code, r.Log
+			f.lastResp = deliverStr(r)
 		case "check":
 			r := f.app.CheckTx(abci.RequestCheckTx{Tx: bz})
 			code, log = r.Code, r.Log
@@ -544,22 +597,47 @@ func (f *Fam) doTx(w []string) (string, []byte, sdk.Msg, txSpec) {
 		return "err"
 	})
 	_ = log
+	f.blockRaw = append(f.blockRaw, bz)
+	if f.rep != nil && t.mode == "deliver" {
+		if f.dead {
+			f.lastResp = "halt"
+		}
+		f.rep.traffic(opRand(strings.Join(w, " "), 4), f.blockRaw)
+		f.repResp = f.rep.run(func(a *App) string { return deliverStr(a.DeliverTx(abci.RequestDeliverTx{Tx: bz})) })
+	}
 	f.extra[fmt.Sprintf("tx:%s:%s:code%d", t.mode, t.kind, code)]++
 	return res, bz, msg, t
 }
 
 // award addr amt ; burn addr decraw : the keeper API other modules use, on the deliver state.
 func (f *Fam) doKeeper(w []string) string {
-	return f.guard(func() string {
-		ctx := f.app.Ctx().WithBlockHeight(f.height).WithBlockTime(time.Unix(0, f.now).UTC())
+	keeper := func(a *App) string {
+		ctx := a.Ctx().WithBlockHeight(f.height).WithBlockTime(time.Unix(0, f.now).UTC())
 		switch w[0] {
 		case "award":
-			f.app.Pos.AwardCoinsTo(ctx, mustInt(w[2]), unhex(w[1]))
+			a.Pos.AwardCoinsTo(ctx, mustInt(w[2]), unhex(w[1]))
 		case "burn":
-			f.app.Pos.BurnValidator(ctx, unhex(w[1]), decRaw(w[2]))
+			a.Pos.BurnValidator(ctx, unhex(w[1]), decRaw(w[2]))
 		}
 		return "ok"
-	})
+	}
+	r := f.guard(func() string { f.lastResp = keeper(f.app); return "ok" })
+	if f.rep != nil {
+		if f.dead {
+			f.lastResp = "panic"
+		}
+		was := f.rep.dead
+		f.repResp = f.rep.run(keeper)
+		if strings.HasPrefix(f.repResp, "halt:") { // a panic in a keeper call is not a halt (as on the primary)
+			f.rep.dead = was
+			f.repResp = "panic"
+		}
+	}
+	return r
+}
+
+func deliverStr(r abci.ResponseDeliverTx) string {
+	return fmt.Sprintf("code=%d/%s data=%x %s", r.Code, r.Codespace, r.Data, eventsStr(r.Events))
 }
 
 var _ = bytes.Equal
